@@ -1,7 +1,8 @@
 // Correspondence harness for C13: stochastic dispersal kernels.
 // Usage: h_kern <mode> <seed> <first> <count>
 //   mode tables  : finite tables, case index selects the table (35 cases, see main)
-//                  0 kernel names, 1 direction names, 2 neighbour kernel, 3 self-test + switch kernel,
+//                  0 kernel names, 1 direction names, 2 neighbour kernel, 3 self-test + switch kernel +
+//                  is_cell_eligible / supports_kernel of every kernel class (kern.elig, kern.supports),
 //                  4..28 uniform kernel on every landscape rows x cols in 1..5 x 1..5,
 //                  29..34 natural/anthropogenic mix for six values of percent_natural
 //   mode radial  : random radial kernels (law = index % 10, direction = (index / 10) % 9),
@@ -9,7 +10,13 @@
 //   mode laws    : the ten distribution classes: sampler parameters (probe subclasses), pdf,
 //                  inverse-transform sampling with a scripted engine, von Mises with scripted uniforms
 //   mode factory : kernels created through create_natural_kernel / create_anthro_kernel /
-//                  create_dynamic_kernel and probed
+//                  create_dynamic_kernel and probed; eligibility and supports_kernel of the built kernel
+//                  (kern.built); the mix end to end with neighbour, network (source cells with and
+//                  without a node) and uniform anthropogenic kernels (kern.mix factory|network|uniform)
+// kern.elig <who> <row> <col> <hasnode> => <0|1>     who: uniform | neighbor | radial | deterministic | network |
+//                                                    network-walk | wrap-<class> | switch:<Type>:<stoch>
+// kern.supports <who> <Type> => <0|1>                who: a class as above, switch, mix-radial-network, mix-radial-radial
+// kern.built <natural|anthro> <name> => <class> sup=<0|1> elig=<bits for the cells of ELIG_CELLS>
 //   mode overpop : (C17) the SwitchDispersalKernel that Model::create_overpopulation_movement_kernel
 //                  builds (protected factory called from a derived class), every member probed
 // Doubles that are inputs are dyadic rationals printed as num/den; observed doubles are C hex floats.
@@ -339,6 +346,17 @@ static Q pick_kappa(Rng& r) {
 static Q pick_x(Rng& r) {
     static const std::vector<Q> v = {{0, 1}, {1, 4}, {1, 1}, {5, 2}, {10, 1}, {151, 4}, {3, 1}, {1, 16}, {-1, 1}, {60, 1}};
     return r.pick(v);
+}
+
+// ---------------------------------------------------------------------------------- test network
+// One segment on a 10 x 10 grid (bbox 0..100, resolution 10): nodes 1 and 2 at the cells (8, 1) and
+// (1, 5), row != col for both and NO node at the transposed cells (1, 8) and (5, 1).  `hasnode` in
+// the protocol is this table (the harness's own knowledge), not an answer of the library.
+static const int ELIG_CELLS[][3] = {{8, 1, 1}, {1, 5, 1}, {1, 8, 0}, {5, 1, 0}, {0, 0, 0}, {1, 1, 0}, {8, 8, 0}, {5, 5, 0}};
+static const int N_ELIG_CELLS = 8;
+static void load_test_network(Network<int>& net) {
+    std::stringstream ns("1,2,16.7;16.7;50.0;16.7;50.0;50.0;50.0;83.3\n");
+    net.load(ns);
 }
 
 // ---------------------------------------------------------------------------------- tables
@@ -748,6 +766,36 @@ static std::string describe_built(KernelInterface<FG>* k, double x, uint64_t s) 
     return "unknown";
 }
 
+// class of a built kernel, its answer for the type its configuration name maps to, and its
+// eligibility answers for the cells of ELIG_CELLS
+static void built_line(std::ostream& out, const char* which, const std::string& name, KernelInterface<FG>* k) {
+    std::string d = describe_built(k, 1.0, 1);
+    std::string cls = d.substr(0, d.find(' '));
+    out << "kern.built " << which << " " << tok(name) << " => " << cls << " sup=";
+    bool sup = false;
+    std::string e = ::verif::err_kind([&] { sup = k->supports_kernel(kernel_type_from_string(name)); });
+    if (e.empty()) out << sup; else out << e;
+    out << " elig=";
+    for (int i = 0; i < N_ELIG_CELLS; i++) out << (k->is_cell_eligible(ELIG_CELLS[i][0], ELIG_CELLS[i][1]) ? 1 : 0);
+    out << "\n";
+    stats.add("built_lines");
+}
+
+// One decision of a factory-built natural/anthropogenic kernel: natural = neighbour kernel N.
+template <class K, class F> static void mix_e2e_line(std::ostream& out, K& k, const char* src, bool enabled, bool eligible, long u, Q pnat,
+                                                    int row, int col, F&& is_anthro_target) {
+    long one = 1L << UB;
+    Provider prov;
+    prov.ant.script = {uval((uint64_t)u, UB)};
+    int r = 0, cc = 0;
+    std::string e = ::verif::err_kind([&] { std::tie(r, cc) = k(prov, row, col); });
+    std::string which = !e.empty() ? e : (r == row - 1 && cc == col) ? "natural" : is_anthro_target(r, cc) ? "anthro" : "?";
+    out << "kern.mix " << src << " " << enabled << " " << eligible << " " << u << "/" << one << " " << qs(pnat) << " " << row << " " << col << " => "
+        << which << " asked=na calls_ant=" << prov.ant.calls << " calls_nat=" << prov.nat.calls << " gen=na " << r << " " << cc << "\n";
+    stats.add("mix_decisions");
+    stats.add(std::string("mix_") + src + (eligible ? "_eligible" : "_not_eligible"));
+}
+
 static void factory_case(::verif::Case& c) {
     Rng& rng = c.rng;
     std::ostream& out = c.out;
@@ -786,6 +834,7 @@ static void factory_case(::verif::Case& c) {
     IntRaster dispersers(config.rows, config.cols, 1);
     BBox<double> bbox; bbox.north = 100; bbox.south = 0; bbox.east = 100; bbox.west = 0;
     Network<int> net(bbox, 10, 10);
+    load_test_network(net);
     Q x = pick_x(rng);
     uint64_t s = rng.next();
     std::ostringstream cfg;
@@ -812,12 +861,14 @@ static void factory_case(::verif::Case& c) {
         std::string e = ::verif::err_kind([&] { k = create_natural_kernel<FG, IntRaster, int>(config, dispersers); });
         out << "kern.factory natural " << cfg.str() << " => " << (e.empty() ? describe_built(k.get(), x.v(), s) : e) << "\n";
         stats.add(e.empty() ? "factory_built" : "factory_rejected");
+        if (e.empty()) built_line(out, "natural", config.natural_kernel_type, k.get());
     }
     {
         std::unique_ptr<KernelInterface<FG>> k;
         std::string e = ::verif::err_kind([&] { k = create_anthro_kernel<FG, IntRaster, int>(config, dispersers, net); });
         out << "kern.factory anthro " << cfg.str() << " => " << (e.empty() ? describe_built(k.get(), x.v(), s) : e) << "\n";
         stats.add(e.empty() ? "factory_built" : "factory_rejected");
+        if (e.empty()) built_line(out, "anthro", config.anthro_kernel_type, k.get());
     }
     {
         std::string desc;
@@ -851,7 +902,110 @@ static void factory_case(::verif::Case& c) {
             stats.add("mix_decisions");
         }
     }
+    // the same with a real anthropogenic kernel that is NOT eligible everywhere: the teleporting
+    // network kernel (eligible iff the source cell has a node: (8,1) <-> (1,5)), natural = neighbour N
+    {
+        Config c3 = config;
+        c3.natural_kernel_type = "deterministic neighbor"; c3.natural_direction = "N";
+        c3.anthro_kernel_type = "network"; c3.network_movement = "teleport";
+        auto k = create_dynamic_kernel<FG, IntRaster, int>(c3, dispersers, net);
+        long one = 1L << UB, pn = pnat.num * (one / pnat.den);
+        int rr, rc;
+        do { rr = rng.in(0, 9); rc = rng.in(0, 9); } while ((rr == 8 && rc == 1) || (rr == 1 && rc == 5));
+        const int cells[5][3] = {{8, 1, 1}, {1, 5, 1}, {1, 8, 0}, {5, 1, 0}, {rr, rc, 0}};
+        for (auto& cell : cells)
+            for (long u : {pn, one - 1, (long)rng.in(0, (1 << UB) - 1)}) {
+                if (u < 0 || u >= one) continue;
+                int row = cell[0], col = cell[1];
+                mix_e2e_line(out, k, "network", c3.use_anthropogenic_kernel, cell[2] == 1, u, pnat, row, col,
+                             // any cell of the segment (8,1) - (8,5) - (1,5): whatever the movement mode does (C15's matter),
+                             // the anthropogenic kernel was used; the natural target (row - 1, col) is never on the segment
+                             [&](int r, int cc) { (void)row; (void)col; return (r == 8 && cc >= 1 && cc <= 5) || (cc == 5 && r >= 1 && r <= 8); });
+            }
+    }
+    // and with the uniform kernel (eligible everywhere) as the anthropogenic kernel; the source cell is
+    // in row 0, so the natural neighbour N leaves the landscape and the uniform kernel never does
+    {
+        Config c4 = config;
+        c4.natural_kernel_type = "deterministic neighbor"; c4.natural_direction = "N";
+        c4.anthro_kernel_type = "uniform";
+        auto k = create_dynamic_kernel<FG, IntRaster, int>(c4, dispersers, net);
+        long one = 1L << UB, pn = pnat.num * (one / pnat.den);
+        for (long u : {pn - 1, pn, one - 1, (long)rng.in(0, (1 << UB) - 1)}) {
+            if (u < 0 || u >= one) continue;
+            int col = rng.in(0, config.cols - 1);
+            mix_e2e_line(out, k, "uniform", c4.use_anthropogenic_kernel, true, u, pnat, 0, col,
+                         [&](int r, int cc) { return r >= 0 && r < config.rows && cc >= 0 && cc < config.cols; });
+        }
+    }
     c.nontrivial = true;
+}
+
+// ---------------------------------------------------------------------------------- eligibility / supports tables
+
+template <class F> static void elig_lines(std::ostream& out, const std::string& who, F&& f) {
+    for (int i = 0; i < N_ELIG_CELLS; i++) {
+        bool b = false;
+        std::string e = ::verif::err_kind([&] { b = f(ELIG_CELLS[i][0], ELIG_CELLS[i][1]); });
+        out << "kern.elig " << who << " " << ELIG_CELLS[i][0] << " " << ELIG_CELLS[i][1] << " " << ELIG_CELLS[i][2] << " => ";
+        if (e.empty()) out << (b ? 1 : 0) << "\n"; else out << e << "\n";
+        stats.add("eligibility_queries");
+    }
+}
+template <class F> static void supports_lines(std::ostream& out, const std::string& who, F&& f) {
+    for (auto t : ALLTYPES) {
+        out << "kern.supports " << who << " " << type_tok(t) << " => " << (f(t) ? 1 : 0) << "\n";
+        stats.add("supports_queries");
+    }
+}
+static void eligibility_table(std::ostream& out) {
+    BBox<double> bbox; bbox.north = 100; bbox.south = 0; bbox.east = 100; bbox.west = 0;
+    Network<int> net(bbox, 10, 10);
+    load_test_network(net);
+    IntRaster dispersers(10, 10, 1);
+    Radial radial(10, 10, DispersalKernelType::Cauchy, 1.0, Direction::None, 0, 1);
+    DeterministicDispersalKernel<IntRaster> det(DispersalKernelType::Cauchy, dispersers, 0.5, 10, 10, 1.0 / 1024, 1);
+    UniformDispersalKernel uni(10, 10);
+    NetworkDispersalKernel<int> netk(net);
+    NetworkDispersalKernel<int> netw(net, 0, 10, true);
+    DeterministicNeighborDispersalKernel nb(Direction::E);
+    // the classes themselves
+    elig_lines(out, "uniform", [&](int r, int c) { return uni.is_cell_eligible(r, c); });
+    elig_lines(out, "neighbor", [&](int r, int c) { return nb.is_cell_eligible(r, c); });
+    elig_lines(out, "radial", [&](int r, int c) { return radial.is_cell_eligible(r, c); });
+    elig_lines(out, "deterministic", [&](int r, int c) { return det.is_cell_eligible(r, c); });
+    elig_lines(out, "network", [&](int r, int c) { return netk.is_cell_eligible(r, c); });
+    elig_lines(out, "network-walk", [&](int r, int c) { return netw.is_cell_eligible(r, c); });
+    // through the virtual interface the dynamic kernel uses
+    DynamicWrapperKernel<UniformDispersalKernel, FG> wu(uni);
+    DynamicWrapperKernel<DeterministicNeighborDispersalKernel, FG> wn(nb);
+    DynamicWrapperKernel<Radial, FG> wr(radial);
+    DynamicWrapperKernel<DeterministicDispersalKernel<IntRaster>, FG> wd(det);
+    DynamicWrapperKernel<NetworkDispersalKernel<int>, FG> wk(netk);
+    std::vector<std::pair<std::string, KernelInterface<FG>*>> wraps = {
+        {"wrap-uniform", &wu}, {"wrap-neighbor", &wn}, {"wrap-radial", &wr}, {"wrap-deterministic", &wd}, {"wrap-network", &wk}};
+    for (auto& w : wraps) elig_lines(out, w.first, [&](int r, int c) { return w.second->is_cell_eligible(r, c); });
+    // the switch kernel for every selector value
+    for (auto t : ALLTYPES)
+        for (int stoch = 0; stoch <= 1; stoch++) {
+            std::string e = ::verif::err_kind([&] {
+                Radial rk(10, 10, t, 1.0, Direction::None, 0, 1);
+                SwitchDispersalKernel<IntRaster, int> sw(t, rk, det, uni, netk, nb, stoch == 1);
+                elig_lines(out, std::string("switch:") + type_tok(t) + ":" + std::to_string(stoch), [&](int r, int c) { return sw.is_cell_eligible(r, c); });
+            });
+            if (!e.empty()) out << "kern.elig switch:" << type_tok(t) << ":" << stoch << " 0 0 0 => " << e << "\n";
+        }
+    // supports_kernel for every DispersalKernelType value
+    supports_lines(out, "uniform", [](DispersalKernelType t) { return UniformDispersalKernel::supports_kernel(t); });
+    supports_lines(out, "neighbor", [](DispersalKernelType t) { return DeterministicNeighborDispersalKernel::supports_kernel(t); });
+    supports_lines(out, "network", [](DispersalKernelType t) { return NetworkDispersalKernel<int>::supports_kernel(t); });
+    supports_lines(out, "radial", [](DispersalKernelType t) { return Radial::supports_kernel(t); });
+    supports_lines(out, "deterministic", [](DispersalKernelType t) { return DeterministicDispersalKernel<IntRaster>::supports_kernel(t); });
+    supports_lines(out, "switch", [](DispersalKernelType t) { return SwitchDispersalKernel<IntRaster, int>::supports_kernel(t); });
+    supports_lines(out, "mix-radial-network", [](DispersalKernelType t) {
+        return NaturalAnthropogenicDispersalKernel<Radial, NetworkDispersalKernel<int>>::supports_kernel(t); });
+    supports_lines(out, "mix-radial-radial", [](DispersalKernelType t) { return NaturalAnthropogenicDispersalKernel<Radial, Radial>::supports_kernel(t); });
+    for (auto& w : wraps) supports_lines(out, w.first, [&](DispersalKernelType t) { return w.second->supports_kernel(t); });
 }
 
 // ---------------------------------------------------------------------------------- overpop mode (C17)
@@ -976,7 +1130,7 @@ int main(int argc, char** argv) {
             if (c.index == 0) { names_kernel(c.out); c.nontrivial = true; }
             else if (c.index == 1) { names_direction(c.out); c.nontrivial = true; }
             else if (c.index == 2) { neighbor_table(c.out); c.nontrivial = true; }
-            else if (c.index == 3) { ok = selftest(c.out) && ok; switch_table(c.out); c.nontrivial = true; }
+            else if (c.index == 3) { ok = selftest(c.out) && ok; switch_table(c.out); eligibility_table(c.out); c.nontrivial = true; }
             else if (c.index < 29) uniform_case(c, (int)((c.index - 4) / 5) + 1, (int)((c.index - 4) % 5) + 1);
             else mix_case(c, ps[(size_t)(c.index - 29)]);
         });
